@@ -162,6 +162,19 @@ fn maha_tol_units(n: usize, cond: f64) -> f64 {
     (8.0 + 2.0 * (n * n) as f64) * cond
 }
 
+/// 2-norm condition number of a matrix given at any overall scale: the matrix is first multiplied by
+/// the power of two that brings its largest entry into [1,2) (exact, and the condition number is
+/// invariant under it), so that the Jacobi sweeps of `oracle::cond2` never see squares of 2^±120.
+fn cond2_any_scale(a: &cat::Mat) -> f64 {
+    let amax = a.iter().flatten().fold(0.0f64, |m, v| m.max(v.abs()));
+    if !(amax > 0.0 && amax.is_finite()) {
+        return f64::INFINITY;
+    }
+    let e = -dd::ilog2(amax);
+    let scaled: cat::Mat = a.iter().map(|r| r.iter().map(|v| dd::ldexp(*v, e)).collect()).collect();
+    mc::oracle::cond2(&scaled)
+}
+
 // ------------------------------------------------------------------------------------------------
 // per-job caches (pure functions of the job; workers run one job after the other)
 
@@ -584,7 +597,7 @@ fn cov_catalogue<T: Fl>(job: &Job) -> CovCat<T> {
         .into_iter()
         .map(|(name, m)| {
             let typed: cat::Mat = m.iter().map(|r| r.iter().map(|v| T::of(v * cs).f()).collect()).collect();
-            let cond = mc::oracle::cond2(&typed);
+            let cond = cond2_any_scale(&typed);
             (name, typed, cond)
         })
         .filter(|(_, _, cond)| *cond <= 1e4)
@@ -653,6 +666,13 @@ fn mcov_exec<T: Fl>(job: &Job) {
     } else if !is_identity {
         mc::count("maha_nonidentity_covariance");
     }
+    // round-2 family: covariance * 2^cs2 with the query vectors * 2^(cs2/2) (distances stay O(1))
+    if job.b("xs") && !df.zero && !o.dxy.is_nan() {
+        mc::count("maha_cov_rescaled_pairs");
+        if o.ok && class.is_none() && o.dxy > 0.0 && o.dxy.is_finite() {
+            mc::count("maha_cov_rescaled_pairs_in_tolerance");
+        }
+    }
     let (mut triples, mut tight) = (0u64, 0u64);
     if !o.dxy.is_nan() {
         let rel = units * T::EPS;
@@ -703,6 +723,10 @@ fn mdata_exec<T: Fl>(job: &Job) {
         return;
     }
     mc::count("data_sets_full_rank");
+    if job.params["ds2"].as_i64().unwrap_or(0).abs() >= 20 {
+        // round-2 family in the quick tier (data and query points * 2^ds2)
+        mc::count("maha_data_rescaled_sets");
+    }
     let rows: Vec<Vec<f64>> = rows_int.iter().map(|r| r.iter().map(|v| T::of(v * ds).f()).collect()).collect();
     let what = || format!("data rows {:?} [{}]", rows, T::NAME);
     let md = match mc::guard(|| Distances::mahalanobis(&mc_sc::dm::<T>(&rows))) {
@@ -714,7 +738,7 @@ fn mdata_exec<T: Fl>(job: &Job) {
     };
     let cov = dd::sample_cov(&rows);
     let covf: cat::Mat = cov.iter().map(|r| r.iter().map(|v| v.to_f64()).collect()).collect();
-    let cond = mc::oracle::cond2(&covf);
+    let cond = cond2_any_scale(&covf);
     let Some(inv) = dd::inverse(&cov) else { panic!("reference inverse failed for full-rank data {:?}", rows) };
     let inv_max = inv.iter().flatten().fold(0.0f64, |m, v| m.max(v.hi.abs()));
     // query points: the lattice itself (d <= 2) or a fixed 8-point subset (d = 3), scaled like the data
@@ -865,6 +889,17 @@ fn push_lp(jobs: &mut Vec<Job>, src: &str, alpha: &str, len: usize, full: bool, 
     }
 }
 
+/// Round 2: exponents k of the overall factors 2^k applied to covariance matrices (query vectors
+/// * 2^(k/2)) — all even, none in the older {0, ±20} (f64: nor ±40 of the thorough tier's
+/// uncompensated family; here the vectors are rescaled too, which is a different input).
+fn rescale_exponents(ty: &str) -> &'static [i64] {
+    if ty == "f32" {
+        &[-20, -30, 20]
+    } else {
+        &[-40, -60, 40, 60]
+    }
+}
+
 const ALL_SCALES: &[i64] = &[0, -6, 6];
 const UNIT_SCALE: &[i64] = &[0];
 
@@ -974,11 +1009,36 @@ impl Harness for C17 {
                     jobs.push(Job::new(format!("mcov-structured-n{}-x1e{}-{}", n, sc10, ty), json!({"kind": "mcov", "set": "struct", "dim": n, "queries": "structured", "cs2": 0, "sc10": sc10, "ty": ty})));
                 }
             }
+            // ---- round 2: tiny and huge overall scales. Covariance * 2^k with the query vectors
+            // * 2^(k/2) (k even, so both factors are exact and the distances are those of k = 0; the
+            // condition number does not change, so the same relative tolerance applies).
+            for cs2 in rescale_exponents(ty) {
+                jobs.push(Job::new(
+                    format!("mcov-rescaled-spd2-cov2^{}-x2^{}-{}", cs2, cs2 / 2, ty),
+                    json!({"kind": "mcov", "set": "spd2", "dim": 2, "queries": "S5", "cs2": cs2, "sc10": 0, "sc2": cs2 / 2, "ty": ty, "xs": true}),
+                ));
+                if t {
+                    let chunks = 16;
+                    for c in 0..chunks {
+                        jobs.push(Job::new(
+                            format!("mcov-rescaled-{}-cov2^{}-x2^{}-{}-part{}of{}", set3, cs2, cs2 / 2, ty, c + 1, chunks),
+                            json!({"kind": "mcov", "set": set3, "dim": 3, "queries": "S3", "cs2": cs2, "sc10": 0, "sc2": cs2 / 2, "ty": ty, "xs": true, "mlo": n3 * c / chunks, "mhi": n3 * (c + 1) / chunks}),
+                        ));
+                    }
+                }
+            }
         }
         // ---- Mahalanobis from data: (d, m, ordered sequences / multisets, data scales 2^k, types)
         const DS_ALL: &[i64] = &[0, 20, -20];
+        // round 2: data (and query points) * 2^k at tiny and huge scales; the f32 exponents that
+        // DS_ALL already contains are not repeated in the thorough tier
+        const DS_X64: &[i64] = &[-40, -60, 40, 60];
+        const DS_X32: &[i64] = &[-20, -30, 20];
+        const DS_X32T: &[i64] = &[-30];
+        const F64: &[&str] = &["f64"];
+        const F32: &[&str] = &["f32"];
         type D = (usize, usize, bool, &'static [i64], &'static [&'static str]);
-        let data: Vec<D> = if t {
+        let mut data: Vec<D> = if t {
             vec![
                 (1, 2, true, DS_ALL, &TYPES),
                 (1, 3, true, DS_ALL, &TYPES),
@@ -1004,6 +1064,15 @@ impl Harness for C17 {
                 (3, 4, false, UNIT_SCALE, &TYPES),
             ]
         };
+        let rescaled_shapes: &[(usize, usize, bool)] = if t {
+            &[(1, 2, true), (1, 3, true), (1, 4, true), (1, 5, true), (2, 3, true), (2, 4, true), (2, 5, true), (2, 6, true), (2, 7, false), (3, 4, true), (3, 5, false)]
+        } else {
+            &[(1, 2, true), (1, 3, true), (1, 4, true), (2, 3, true), (2, 4, true), (2, 5, true)]
+        };
+        for (d, m, ordered) in rescaled_shapes {
+            data.push((*d, *m, *ordered, DS_X64, F64));
+            data.push((*d, *m, *ordered, if t { DS_X32T } else { DS_X32 }, F32));
+        }
         for (d, m, ordered, dscales, types) in &data {
             let np = cat::data_points(*d).len();
             for ds2 in dscales.iter() {
@@ -1035,6 +1104,9 @@ impl Harness for C17 {
                 ("data_sets_rank_deficient_skipped", 100),
                 ("intermediate_out_of_range_cases", 100),
                 ("symmetry_bit_exact", 10_000),
+                ("maha_cov_rescaled_pairs", 100_000),
+                ("maha_cov_rescaled_pairs_in_tolerance", 100_000),
+                ("maha_data_rescaled_sets", 100_000),
             ],
             bounds: json!({
                 "types": "f64 and f32 for every family",
